@@ -13,6 +13,7 @@ def run(ctx):
     ctx.rule("C05-R3", "the mask and the per-window parameter sequences are expanded by the same `durations` and filtered by the same mask; element m = vector_length*window_index + vector_index with inverted variance; boundary distances come from the same mask")
     p = cm.program(ctx)
     c05_solver.check(ctx, p)
+    c05_solver.check_assembly(ctx, p)
 
     # ---- R1
     pred = None
